@@ -126,6 +126,11 @@ def run_case(c, R):
     if spec['bp']['kind'] == 'array' and (hi - lo) < fr.fchans and (hi - lo) * (opts['f_subsamples'] if opts['integrate_f_profile'] else 1) == fr.fchans:
         R.bucket('bp-array:restricted-grid-length-equals-fchans')
     got = call_add_signal(fr, stg, spec, opts, c['brange'], ref, lo, hi, R)
+    # "the frame's own time and frequency axes": they are inputs of the evaluation, handed to the caller's functions as they are --
+    # the call must leave them exactly as it found them (a profile that shifts its argument in place shifts the frame's axis)
+    R.check(np.array_equal(np.asarray(fr.ts), ts) and np.array_equal(np.asarray(fr.fs), fs), 'frame-axes-changed-by-the-call',
+            ts_shift=float(np.max(np.abs(np.asarray(fr.ts, dtype=float) - ts))) if np.shape(fr.ts) == ts.shape else None,
+            tprof=spec['tprof']['kind'], path=spec['path']['kind'])
     R.count('add_signal_calls')
     R.check(isinstance(got, np.ndarray) and got.shape == (g['tchans'], g['fchans']), 'return-shape',
             shape=list(np.shape(got)))
